@@ -22,6 +22,14 @@ Theorem C06_local_close : forall code reason, code < 2 ^ 16 ->
   local_close_body code reason = local_close_spec code reason /\ (length (local_close_body code reason) <= 125)%nat.
 Proof. exact local_close_correct. Qed.
 
+(* a close caused by an error - a transport fault or a violation by the peer, whatever the length of the error text -
+   carries a two-byte status and at most 123 bytes of text: a valid control-frame payload *)
+Theorem C06_error_close : forall reading e text,
+  let st := emit_error_status reading e in
+  0 < st < 2 ^ 16 ->
+  error_close_body reading e text = error_close_spec st text /\ (length (error_close_body reading e text) <= 125)%nat.
+Proof. exact error_close_correct. Qed.
+
 (* the registered code 1014 (not forbidden by RFC 6455 7.4) is answered 1000 - it was answered 1002 before fix ffeca41 *)
 Example C06_1014 : close_reply_body (fun _ => true) true [3; 246] = be16 1000.
 Proof. vm_compute. reflexivity. Qed.
@@ -57,5 +65,6 @@ Proof. exact skel_ok_close. Qed.
 
 Print Assumptions C06_reply.
 Print Assumptions C06_local_close.
+Print Assumptions C06_error_close.
 Print Assumptions C06_one_close_nothing_after.
 Print Assumptions C06_skeleton_discipline.
